@@ -576,3 +576,121 @@ func c03IntegerTestOps(p *Prog) *RuleResult {
 	r.Anchor("paths of SimplifyBooleanExpr licensed by isInt32OrUint32", len(names) >= 2)
 	return r
 }
+
+// C03/R10 known-function marking consults parameter defaults.
+//
+// With --minify-syntax the parser marks a function declaration as "known empty" (calls to it are
+// dropped, keeping only the arguments' side effects) or "known identity" (calls are replaced by the
+// argument). Both are only true of a function whose parameters are plain identifiers *without
+// default values*: a default `a = g()` runs g() when the argument is omitted, so `f()` is not a
+// no-op. The two markings are siblings: each store of IsEmptyFunction / IsIdentityFunction into
+// Symbol.Flags must be control dependent on a nil test of Arg.DefaultOrNil.
+func c03KnownFunctionDefaults(p *Prog) *RuleResult {
+	r := NewRule("C03/R10 known-function-defaults", "a function is marked known-empty / known-identity only after every parameter was seen to have no default value (a default value expression runs when the argument is omitted)")
+	apk := p.ByPath[modPath+"/internal/ast"]
+	if !r.Anchor("package ast", apk != nil) {
+		return r
+	}
+	flags := constsOfType(apk.Types, "SymbolFlags")
+	want := map[int64]string{}
+	for _, n := range []string{"IsEmptyFunction", "IsIdentityFunction"} {
+		if v, ok := flags[n]; ok {
+			want[v] = n
+		}
+	}
+	if !r.Anchor("ast.IsEmptyFunction / ast.IsIdentityFunction", len(want) == 2) {
+		return r
+	}
+	n := 0
+	for _, fn := range p.ModuleFuncs() {
+		if pkgPathOf(fn) != modPath+"/internal/js_parser" {
+			continue
+		}
+		eachInstr(fn, func(b *ssa.BasicBlock, in ssa.Instruction) {
+			st, ok := in.(*ssa.Store)
+			if !ok {
+				return
+			}
+			fa, ok := st.Addr.(*ssa.FieldAddr)
+			if !ok || fieldAddrName(fa) != "Flags" || namedTypeName(fa.X.Type()) != "ast.Symbol" {
+				return
+			}
+			bo, ok := st.Val.(*ssa.BinOp)
+			if !ok || bo.Op != token.OR {
+				return
+			}
+			cv, ok := constInt(bo.Y)
+			if !ok {
+				return
+			}
+			name, ok := want[cv]
+			if !ok {
+				return
+			}
+			n++
+			r.Instances++
+			key := FuncName(fn) + " marks " + name
+			// conditions the store is control dependent on: dominating facts, and for a phi among
+			// them the conditions that select its incoming edges
+			consults := false
+			seenV := map[ssa.Value]bool{}
+			var look func(v ssa.Value, depth int)
+			look = func(v ssa.Value, depth int) {
+				if v == nil || seenV[v] || depth > 12 || consults {
+					return
+				}
+				seenV[v] = true
+				switch x := v.(type) {
+				case *ssa.BinOp:
+					for _, side := range []ssa.Value{x.X, x.Y} {
+						_, path := purePath(side)
+						for _, s := range path {
+							if s == "DefaultOrNil" {
+								consults = true
+							}
+						}
+					}
+					look(x.X, depth+1)
+					look(x.Y, depth+1)
+				case *ssa.UnOp:
+					look(x.X, depth+1)
+				case *ssa.Phi:
+					for _, e := range x.Edges {
+						look(e, depth+1)
+					}
+					// every branch between the phi's immediate dominator and the phi selects an edge
+					join := x.Block()
+					stop := join.Idom()
+					seenB := map[*ssa.BasicBlock]bool{join: true}
+					work := append([]*ssa.BasicBlock{}, join.Preds...)
+					for len(work) > 0 {
+						bb := work[len(work)-1]
+						work = work[:len(work)-1]
+						if seenB[bb] {
+							continue
+						}
+						seenB[bb] = true
+						if len(bb.Instrs) > 0 {
+							if ifi, ok := bb.Instrs[len(bb.Instrs)-1].(*ssa.If); ok {
+								look(ifi.Cond, depth+1)
+							}
+						}
+						if bb != stop {
+							work = append(work, bb.Preds...)
+						}
+					}
+				}
+			}
+			for _, f := range factsAt(b) {
+				look(f.Cond, 0)
+			}
+			if consults {
+				r.OK(key, true, "control dependent on a test of Arg.DefaultOrNil")
+			} else {
+				r.Fail(key, p.Pos(st.Pos()), "the function is marked "+name+" without looking at the default values of its parameters: `function f(a = g()) {} f()` is then treated as a no-op and the call of g() is lost")
+			}
+		})
+	}
+	r.Anchor("stores of IsEmptyFunction / IsIdentityFunction", n >= 2)
+	return r
+}
